@@ -2,6 +2,7 @@ import SakuraVerif.Driver.SmfOps
 import SakuraVerif.Driver.DumpOps
 import SakuraVerif.Driver.LenOps
 import SakuraVerif.Driver.MsgOps
+import SakuraVerif.Driver.SutOps
 open Sakura Sakura.Wire Sakura.Driver
 
 def handle (line : String) : String :=
@@ -18,6 +19,9 @@ def handle (line : String) : String :=
   | ["lenspec2", tb, dsyn, syn] => s!"ok out={lenSpec (parseInt tb) (lenSpec (parseInt tb) (parseInt tb) dsyn) syn}"
   | ["spec.c15", name, ch, dev, args, txt, bin] =>
       "ok " ++ specC15 (String.ofList ((text name).map Char.ofNat)) (parseNat ch) (parseNat dev) (parseIntList args) (text txt) (unhex bin)
+  | ["convert", src] => "ok " ++ sutConvert src
+  | ["sutspec", segs] => "ok " ++ sutExpected segs
+  | ["zen2han", c] => s!"ok out={Sakura.Sut.zen2han (parseNat c)}"
   | _ => "bad-op"
 
 partial def loop (h : IO.FS.Stream) (out : IO.FS.Stream) : IO Unit := do
